@@ -28,6 +28,16 @@ BigArr == NArr([i \in 1..12 |-> NInt(0)])
 BigB == L(NBin(">", NLen(BigArr), NInt(0)), "bool")
 BigI == L(NBin("*", NLen(BigArr), NInt(0)), "int")
 
+(* Family "ovconst" (C05): BigD is a literal with more distinct constants than a  *)
+(* small constant pool holds; the harness inflates it to 65534..65536 distinct   *)
+(* integers, so that the constants created after it - the folded ranges of the    *)
+(* optimizer are not hashable and take the unchecked path if there is one - get   *)
+(* indices around the 16-bit limit.  The value does not depend on its length.     *)
+(* (a string first, so that the optimizer does not fold the literal; the integers  *)
+(* 2..12 include the literal's own length and every constant used after it)       *)
+BigD == NArr([i \in 1..12 |-> IF i = 1 THEN NStr("a") ELSE NInt(i)])
+BigDB == L(NBin(">", NLen(BigD), NInt(2)), "bool")
+
 (* values each environment member ranges over *)
 ObjA == Obj("Obj", [N |-> IntV(3), Name |-> Str("ab"), Next |-> PtrNil("Obj"), Tags |-> Arr("string", <<Str("x"), Str("y")>>)])
 ObjB == Obj("Obj", [N |-> IntV(-1), Name |-> Str(""), Next |-> PtrTo("Obj", ObjA), Tags |-> Arr("nil[]string", <<>>)])
@@ -92,6 +102,7 @@ F_Leaves ==
     [] Family = "ovlb"   -> Ints({1}) \cup {Mem("B"), Mem("I"), Mem("Xs")}   \* `+` in branches, bounds and sliced operands
     [] Family = "promo"  -> {Mem(m) : m \in {"I", "I8", "I16", "I32", "I64", "U", "U8", "U16", "U32", "U64", "F32", "F"}}
     [] Family = "oversize" -> Ints({7}) \cup {BigB, BigI, Mem("B"), Mem("I"), Mem("Xs"), Mem("P")}
+    [] Family = "ovconst" -> Ints({2, 3, 4}) \cup {BigDB}
 
 F_UnOps ==
   CASE Family = "arith" -> {"-", "+"}
@@ -118,6 +129,7 @@ F_BinOps ==
     [] Family = "ovlb"   -> {"+"}
     [] Family = "promo"  -> {"+", "-", "*", "/", "%"} \cup CmpOps
     [] Family = "oversize" -> {"and", "or", "==", "+"}
+    [] Family = "ovconst" -> {".."}
 
 F_Props ==
   CASE Family = "access" -> {Pr("N", FALSE), Pr("N", TRUE), Pr("Next", FALSE), Pr("Next", TRUE), Pr("Name", FALSE), Pr("Tags", TRUE)}
@@ -162,7 +174,7 @@ F_SliceShapes == CASE Family \in {"coll", "string"} -> {"ft", "f", "t", "n"} [] 
                    [] Family = "laws" -> {"f"} [] Family = "ovl" -> {"f"} [] Family = "ovlb" -> {"f", "t"}
                    [] Family = "order" -> {"ft", "f", "t"} [] OTHER -> {}
 F_ArrLens == CASE Family \in {"coll", "mixed", "alloc"} -> {0, 1, 2} [] Family \in {"ovl", "ovlb"} -> {1} [] Family \in {"builtin", "calls", "cexpr"} -> {2}
-               [] Family = "inlit" -> {1, 3} [] OTHER -> {}
+               [] Family = "inlit" -> {1, 3} [] Family = "ovconst" -> {3} [] OTHER -> {}
 F_MapLens == CASE Family = "coll" -> {0, 1, 2} [] Family \in {"mixed", "alloc", "ovl"} -> {1} [] OTHER -> {}
 F_ElemLeaves == Family \in {"builtin", "mixed", "alloc", "oversize", "laws", "ovl"}
 F_OrderGuard == Family # "order"
@@ -317,6 +329,8 @@ EmitWalk == (Complete /\ EmitMode = "walk") => PrintT(ToJson(WalkCase))
 (* EmitMode "count": only evaluate the reference semantics (timing/stats). *)
 Emit == Complete =>
           CASE EmitMode = "cases" -> PrintT(ToJson(Case))
+            [] EmitMode = "ovconst" ->    \* only [len(BigD) > 2, range, range]
+                 (Tree.k = "arr" /\ Tree.xs[1] = BigDB.e /\ Tree.xs[2].k = "bin" /\ Tree.xs[3].k = "bin") => PrintT(ToJson(Case))
             [] EmitMode = "count" -> Cardinality(Runs(Tree)) >= 0
             [] OTHER -> TRUE
 =============================================================================
